@@ -354,6 +354,24 @@ def correspond(ctx, gen_ok):
         if list(M.blocks) != want:
             ctx.fail(BMAT_KEY if n >= 4 else 'bmat-blocks', 'skfem.utils.bmat(...).blocks are not the prefix sums of the block-column widths',
                      dict(info, got=[int(x) for x in M.blocks], expected=want))
+    # dense conversion of N-tensors (COOData.toarray, N-tensor branch) with duplicate index triples: real and complex data
+    from skfem.assembly.form.coo_data import COOData
+    for c in range(ctx.n(6, 30)):
+        shp = (rng.randint(1, 3), rng.randint(1, 3), rng.randint(1, 3))
+        n = rng.randint(0, 8)
+        ind = np.array([[rng.randrange(shp[a]) for _ in range(n)] for a in range(3)], dtype=np.int64).reshape(3, n)
+        cplx = c % 2 == 0
+        dat = np.array([complex(rng.randint(-3, 3), rng.randint(-3, 3)) if cplx else float(rng.randint(-3, 3)) for _ in range(n)],
+                       dtype=np.complex128 if cplx else np.float64)
+        info = {'shape': shp, 'indices': ind.tolist(), 'data': [str(x) for x in dat], 'complex': cplx}
+        got = _run(ctx, 'coo:toarray3', 'COOData.toarray of a 3-tensor', info, lambda: COOData(ind, dat, shp, None).toarray())
+        ref = np.zeros(shp, dtype=dat.dtype)
+        np.add.at(ref, tuple(ind), dat)
+        ctx.count(('toarray3', info), nontrivial=n >= 2)
+        if got is not None and (np.shape(got) != shp or not np.array_equal(got, ref)):
+            ctx.fail('coo:toarray3-complex' if cplx else 'coo:toarray3', 'COOData.toarray of a 3-tensor is not the sum of the triplets'
+                     + (' (imaginary part lost)' if cplx else ''), dict(info, got=[str(x) for x in np.asarray(got).ravel()],
+                                                                        expected=[str(x) for x in ref.ravel()]))
     # CompositeBasis of stub bases: N, Nbfun, nelems and the stacked element_dofs; rejected combinations
     for c in range(ctx.n(6, 40)):
         M = rng.randint(1, 3) if c >= 2 else 3 + c
